@@ -57,10 +57,9 @@ def _run_engine_case(sc):
                 busy_call = True
         if r['k'] == 'a-idle-end' and r.get('timeout') is None and not r.get('exc') and r.get('pending'):
             b0 = begun.get((r['actor'], r['bus']), r['i'])
-            # only events the bus had accepted BEFORE the call was made are promised to be finished
+            # "returns only when the bus has nothing queued, pending or started" - at the instant of the return, whenever accepted
             early = [ev for ev in r['pending'] if any(i < b0 for i in F.enq.get((r['bus'], ev), []))]
-            if early:
-                viol.append(('C15.a', f'wait_until_idle() on {r["bus"]} (called at idx {b0}) returned at idx {r["i"]} (t={r["t"]:g}) while events {early[:8]} accepted by that bus before the call had not finished their handlers there'))
+            viol.append(('C15.a', f'wait_until_idle() on {r["bus"]} (called at idx {b0}) returned at idx {r["i"]} (t={r["t"]:g}) while events {r["pending"][:8]} accepted by that bus (before the call: {early[:8]}) had not finished their handlers there'))
     hang = out.get('hang')
     if hang:
         blocked = [a for a in (hang.get('actors') or {}).values() if a.get('blocked') and a['blocked'][0] == 'idle']
